@@ -853,3 +853,24 @@ Proof.
   exists [OLit [1; 2; 3; 4]%Z 0], 2, 0. cbn zeta. split; [apply run_inv|]. split; [vm_compute; lia|].
   vm_compute. discriminate.
 Qed.
+
+(* ------------------------------------------------------------------ observer-style operations *)
+
+(* A built-in that only READS its operands (~, =, +, sum, order, groupBy, ... : every list method and operator
+   except append) is, in the model, nothing but the materialisation (Eval) of some handles, with any capacities:
+   no handle is added, nobody's content changes, the abstraction of the heap is the same. *)
+Definition observe_ops (evs : list (nat * nat)) : list op := map (fun ac => OForce (fst ac) (snd ac)) evs.
+
+Lemma observe_preserves_lemma : forall evs h, inv h ->
+  let h' := run_from h (observe_ops evs) in
+  inv h' /\ nobjs h' = nobjs h /\ (forall x, icontent h' x = icontent h x) /\ abs h' = abs h.
+Proof.
+  induction evs as [|[a c] evs IH]; intros h Hinv; cbn [observe_ops map run_from fold_left].
+  - split; [exact Hinv|]. split; [reflexivity|]. split; reflexivity.
+  - cbn [step fst snd]. destruct (eval_obj_good h a c Hinv) as (Hg & Hn & _).
+    pose proof Hg as (Hi1 & _ & Hc1).
+    destruct (IH _ Hi1) as (Hi2 & Hn2 & Hc2 & Ha2). fold (observe_ops evs). fold (run_from (eval_obj h a c) (observe_ops evs)).
+    assert (Habs : abs (eval_obj h a c) = abs h) by (apply abs_same; auto).
+    split; auto. split; [lia|]. split; [|congruence].
+    intros x. rewrite Hc2. change (nth x (abs (eval_obj h a c)) [] = nth x (abs h) []). rewrite Habs. reflexivity.
+Qed.
